@@ -26,7 +26,7 @@ func genCredValue(r *Rng) string {
 		b[i] = "abcxyz0189:/@. -_=%"[r.Intn(19)]
 	}
 	s := string(b)
-	if r.Chance(45) {
+	if r.Chance(14) {
 		ctl := Pick(r, []string{"\n", "\r", "\x00", "\r\n", "\n\n", "\nhost=evil.example", "\rpassword=x", "\x00x"})
 		pos := 0
 		switch r.Intn(3) {
